@@ -618,6 +618,26 @@ def voxel_cloud(rng, n, vdim, dn, mode):
     return None
 
 
+def run_voxel_tiny(ck, rng):
+    """Voxels far smaller than the spacing of the points (extent / voxel beyond 2^31 cells per axis): every point is alone in its
+    voxel, so the filter returns the cloud itself (as a set), centroid and random-member modes alike.  float64 clouds."""
+    for case in range(6):
+        n, D = int(rng.choice([1, 5, 60, 300])), int(rng.integers(1, 4))
+        x = rng.uniform(0, 1, (n, D)) * 10.0 + rng.uniform(-5, 5, D)
+        v = [float(rng.choice([1e-9, 2.0 ** -30]))] * D
+        for rand_ in (False, True):
+            reg = f"voxel_filter/f64/tiny-voxel/random={rand_}"
+            wit = {"N": n, "D": D, "voxel": v, "random": rand_, "points": x if x.size <= 60 else dig(x)}
+            okc, out = ck.call("voxel_filter", reg, "voxel_filter", lambda: pp.voxel_filter(tt(x, "f64"), v, random=rand_), witness=wit)
+            ck.count("voxel_filter", reg, key=(case, rand_, dig(x)))
+            if not okc:
+                continue
+            got = npf(out)
+            ck.check(got.shape == x.shape and multiset_equal(np.round(got, 12), np.round(x, 12)), "voxel_filter", reg, "voxel_filter",
+                     "points_alone_in_their_voxels_are_not_returned_as_they_are", lambda: dict(wit, returned=int(got.shape[0]), occupied_voxels=n))
+            ck.mark("voxel_filter/tiny-voxel")
+
+
 def run_voxel(ck, rng, dn, thorough):
     u = u_of(dn)
     reps = 160 if thorough else 8
@@ -749,8 +769,10 @@ def run_camera(ck, rng, dn, thorough):
                 K = np.zeros((nK, 3, 3))
                 K[:, 0, 0], K[:, 1, 1], K[:, 0, 2], K[:, 1, 2], K[:, 2, 2] = f[:, 0], f[:, 1], c[:, 0], c[:, 1], 1.0
                 K = rnd(K, dn)
-                # camera-frame points
-                z = rng.uniform(0.2, 20, (nb, n))
+                # camera-frame points; the whole scene in ordinary, very small or very large units (the pinhole model is homogeneous)
+                scene = float(rng.choice([1.0, 1.0, 1.0, 1e-9, 1e6]))
+                ck.mark("pinhole/scene-units:%g" % scene)
+                z = rng.uniform(0.2, 20, (nb, n)) * scene
                 if zsign == "behind":
                     z = -z
                 elif zsign == "mixed":
@@ -764,13 +786,13 @@ def run_camera(ck, rng, dn, thorough):
                 else:
                     nE = 1 if ext == "one" else nb
                     q = G.random_quat(rng, nE)
-                    t = rng.standard_normal((nE, 3)) * 10.0 ** rng.uniform(-1, 2, (nE, 1))
+                    t = rng.standard_normal((nE, 3)) * 10.0 ** rng.uniform(-1, 2, (nE, 1)) * scene
                     E = rnd(np.concatenate([t, q], -1), dn)          # what the library receives
                     t, q = E[:, :3], E[:, 3:]
                     pw = np.stack([rnd(np.asarray(G.rigid_inv(q[b % nE], t[b % nE], pc[b]), dtype=np.float64), dn) for b in range(nb)])
                     pc_ref = [G.rigid(q[b % nE], t[b % nE], pw[b]) for b in range(nb)]
                 # keep only well-posed projections after rounding (|z| not collapsed)
-                if any(np.abs(np.asarray(p[:, 2], dtype=np.float64)).min() < 0.1 for p in pc_ref):
+                if any(np.abs(np.asarray(p[:, 2], dtype=np.float64)).min() < 0.1 * scene for p in pc_ref):
                     ck.note_add("camera_cases_redrawn_depth_collapsed_by_rounding")
                     continue
                 Kb = [K[b % nK] for b in range(nb)]
@@ -928,6 +950,9 @@ def run(ck):
         from .. import repeat
         repeat.run(ck, PID, repeat.table(PID, ck.rng("repeat")))
     thorough = ck.tier == "thorough"
+    if ck.shard == 1 % ck.nshards:
+        run_voxel_tiny(ck, ck.rng("voxtiny"))
+    ck.require("voxel_filter/tiny-voxel", "pinhole/scene-units:1e-09", "pinhole/scene-units:1e+06")
     for dn in ("f64", "f32"):
         run_knn(ck, ck.rng("knn" + dn), dn, thorough)
         run_nbr(ck, ck.rng("nbr" + dn), dn, thorough)
